@@ -75,8 +75,26 @@ func NewBackend(kind string) (nodeenrollment.Storage, func(), error) {
 		if root == "" {
 			root = "/verif"
 		}
-		dir := filepath.Join(root, ".build", fmt.Sprintf("run-%d-%d", os.Getpid(), runDirSeq.Add(1)))
-		s, err := file.New(ctx, file.WithBaseDirectory(dir))
+		seq := runDirSeq.Add(1)
+		name := fmt.Sprintf("run-%d-%d", os.Getpid(), seq)
+		dir := filepath.Join(root, ".build", name)
+		// the same directory as an operator may spell it in a configuration file: not every fifth
+		// spelling is in the form filepath.Clean would produce
+		spelled := dir
+		switch seq % 5 {
+		case 1:
+			spelled = dir + string(filepath.Separator)
+		case 2:
+			spelled = filepath.Join(root, ".build") + "//" + name
+		case 3:
+			spelled = filepath.Join(root, ".build") + "/./" + name
+		case 4:
+			spelled = dir + "/sub/.."
+			if err := os.MkdirAll(filepath.Join(dir, "sub"), 0o700); err != nil {
+				return nil, nil, err
+			}
+		}
+		s, err := file.New(ctx, file.WithBaseDirectory(spelled))
 		return s, func() { _ = os.RemoveAll(dir) }, err
 	}
 	return nil, nil, fmt.Errorf("unknown backend %q", kind)
@@ -96,13 +114,78 @@ type ServerCfg struct {
 	// to be opened) | WrapEnvelope (envelope encryption: a wrapped data key and IV travel with every
 	// sealed value; this test wrapper does not authenticate additional data)
 	StorageWrapKind string
+	// RegWrapKind (with RegWrap): "" one aead key on both sides | WrapPooled (the server's registration
+	// wrapper is a pool whose encrypting key has been rolled over since the nodes were provisioned: nodes
+	// seal with the older key, which is still in the pool, and the server finds it through the key
+	// information that travels with the sealed value)
+	RegWrapKind string
 }
 
 // Storage wrapper kinds
 const (
 	WrapPooled   = "pooled"
 	WrapEnvelope = "envelope"
+	// WrapNoKeyID: an aead wrapper that was given key bytes but no key ID (KeyId() reports "")
+	WrapNoKeyID = "nokeyid"
+	// WrapFlaky: one aead key behind a FlakyWrapper (a key service that can be made to fail one call)
+	WrapFlaky = "flaky"
 )
+
+// FlakyWrapper passes everything to an inner wrapper until it is armed; then the k-th Decrypt (or Encrypt)
+// after arming fails, the way a remote key service fails for one call
+type FlakyWrapper struct {
+	wrapping.Wrapper
+	mu        sync.Mutex
+	decAt     int
+	encAt     int
+	dec, enc  int
+	delivered int
+}
+
+// ErrWrapperDown is what an armed FlakyWrapper returns
+var ErrWrapperDown = errors.New("injected: key service unavailable")
+
+// Arm makes the decAt-th Decrypt and the encAt-th Encrypt from now on fail (0 = none); counters restart
+func (f *FlakyWrapper) Arm(decAt, encAt int) {
+	f.mu.Lock()
+	f.decAt, f.encAt, f.dec, f.enc, f.delivered = decAt, encAt, 0, 0, 0
+	f.mu.Unlock()
+}
+
+// Delivered reports how many failures were delivered since Arm, and how many Decrypt / Encrypt calls were seen
+func (f *FlakyWrapper) Delivered() (failures, decrypts, encrypts int) {
+	f.mu.Lock()
+	defer f.mu.Unlock()
+	return f.delivered, f.dec, f.enc
+}
+
+func (f *FlakyWrapper) Decrypt(ctx context.Context, in *wrapping.BlobInfo, opt ...wrapping.Option) ([]byte, error) {
+	f.mu.Lock()
+	f.dec++
+	fail := f.decAt > 0 && f.dec == f.decAt
+	if fail {
+		f.delivered++
+	}
+	f.mu.Unlock()
+	if fail {
+		return nil, ErrWrapperDown
+	}
+	return f.Wrapper.Decrypt(ctx, in, opt...)
+}
+
+func (f *FlakyWrapper) Encrypt(ctx context.Context, in []byte, opt ...wrapping.Option) (*wrapping.BlobInfo, error) {
+	f.mu.Lock()
+	f.enc++
+	fail := f.encAt > 0 && f.enc == f.encAt
+	if fail {
+		f.delivered++
+	}
+	f.mu.Unlock()
+	if fail {
+		return nil, ErrWrapperDown
+	}
+	return f.Wrapper.Encrypt(ctx, in, opt...)
+}
 
 // Server is a server world
 type Server struct {
@@ -112,6 +195,8 @@ type Server struct {
 	Store   nodeenrollment.Storage
 	SW      wrapping.Wrapper
 	RW      wrapping.Wrapper
+	// NodeRW is the registration wrapper nodes were provisioned with when it is not RW itself
+	NodeRW  wrapping.Wrapper
 	cleanup func()
 }
 
@@ -136,12 +221,29 @@ func NewServer(cfg ServerCfg) (*Server, error) {
 			s.SW = pool
 		case WrapEnvelope:
 			s.SW = wrapping.NewTestEnvelopeWrapper(RandBytes(32))
+		case WrapNoKeyID:
+			s.SW = NewAead("")
+		case WrapFlaky:
+			s.SW = &FlakyWrapper{Wrapper: NewAead("storage-wrapper-" + randHex(4))}
 		default:
 			s.SW = NewAead("storage-wrapper-" + randHex(4))
 		}
 	}
 	if cfg.RegWrap {
 		s.RW = NewAead("registration-wrapper-" + randHex(4))
+		if cfg.RegWrapKind == WrapPooled {
+			s.NodeRW = s.RW
+			pool, err := multi.NewPooledWrapper(s.Ctx, s.NodeRW)
+			if err != nil {
+				cleanup()
+				return nil, err
+			}
+			if _, err := pool.SetEncryptingWrapper(s.Ctx, NewAead("registration-wrapper-"+randHex(4))); err != nil {
+				cleanup()
+				return nil, err
+			}
+			s.RW = pool
+		}
 	}
 	if !cfg.NoRoots {
 		if _, err := rotation.RotateRootCertificates(s.Ctx, s.Store, s.Opts(cfg.RootOpts...)...); err != nil {
@@ -162,6 +264,14 @@ func (s *Server) Rollover() {
 	if _, err := pool.SetEncryptingWrapper(s.Ctx, NewAead("storage-wrapper-"+randHex(4))); err != nil {
 		panic(err)
 	}
+}
+
+// NodeRegWrap is the registration wrapper an honest node seals its registration info with
+func (s *Server) NodeRegWrap() wrapping.Wrapper {
+	if s.NodeRW != nil {
+		return s.NodeRW
+	}
+	return s.RW
 }
 
 // MustServer panics on error (harness setup failures are harness bugs)
@@ -492,7 +602,7 @@ func Enroll(s *Server, flow string, nodeWrap bool, state, params *structpb.Struc
 			return nil, err
 		}
 		res.Node = n
-		req, err := n.FetchRequest(nodeenrollment.WithRegistrationWrapper(s.RW), nodeenrollment.WithWrappingRegistrationFlowApplicationSpecificParams(params))
+		req, err := n.FetchRequest(nodeenrollment.WithRegistrationWrapper(s.NodeRegWrap()), nodeenrollment.WithWrappingRegistrationFlowApplicationSpecificParams(params))
 		if err != nil {
 			return nil, err
 		}
